@@ -345,6 +345,26 @@ def stmt_rules_leg(ctx):
             continue
         for cn, col in tab.columns.items():
             walk(tn, ast.Column(cn), cn, col.dtype, 0)
+    # every column name of every table resolves - also when it is WRITTEN (text route, any letter case, and as an alias):
+    # words the grammar uses in clauses (open, close, clear, on, at, ...) are not reserved
+    named = [(tn, cn) for tn, tab in conn.tables.items() if tn for cn in tab.columns]
+    extra = ctx.rng.sample(named, min(len(named), ctx.pick(40, 400)))
+    soft = [(tn, cn) for tn, cn in named if cn.lower() in ('open', 'close', 'clear', 'on', 'at', 'by', 'from', 'type', 'date', 'year', 'null', 'meta', 'id')]
+    for tn, cn in dict.fromkeys(soft + extra):
+        for t in ('SELECT %s FROM #%s' % (cn, tn), 'SELECT %s FROM #%s' % (cn.upper(), tn), 'SELECT 1 AS %s FROM #%s' % (cn, tn)):
+            try:
+                stmt = parser.parse(t)
+                ok, ex = compile_(stmt)
+            except beanquery.ParseError as ex_:
+                ok, ex = False, ex_
+            except Exception as ex_:  # noqa
+                ok, ex = None, ex_
+            ctx.case('name:' + t, False)
+            if ok is None:
+                ctx.violation('name:' + type(ex).__name__, '%s escapes: %s' % (type(ex).__name__, ex), {'text': t}, 'C2S')
+                continue
+            events.append({'id': len(events) + 1, 'what': 'attr', 'kind': '', 'from': '', 'open': 0, 'close': 0, 'clear': False, 'ok': ok,
+                           'structured': 1, 'known': 1, 'text': t})
     # the same values handed on by a subquery keep their datatype
     for tn, cn in (('accounts', 'open'), ('accounts', 'close'), ('postings', 'position'), ('postings', 'entry'), ('postings', 'account')):
         sub_ = selectq.bql.select_ast([(ast.Column(cn), 'o')], tn)
